@@ -57,6 +57,13 @@ class Un(Expr):
 
 
 @dataclass(frozen=True)
+class UnPlus(Un):
+    """a derived node class that ADDS a child field to those of its (concrete) base class"""
+
+    extra: Expr | None = None
+
+
+@dataclass(frozen=True)
 class Bin(Expr):
     left: Expr
     right: Expr
@@ -235,6 +242,7 @@ CHILD_FIELDS: dict[type, list[tuple[str, bool]]] = {
     Leaf: [],
     Leaf2: [],
     Un: [("arg", False)],
+    UnPlus: [("arg", False), ("extra", False)],
     Bin: [("left", False), ("right", False)],
     Opt: [("c", False)],
     UnionKid: [("c", False)],
@@ -398,8 +406,10 @@ class Gen:
             each = max(1, total // cnt)
             return tuple(sub(each) for _ in range(cnt))
 
-        if k < 0.12:
+        if k < 0.09:
             n = Un(sub(b), origin=o)
+        elif k < 0.12:
+            n = UnPlus(sub(b // 2), sub(b // 2) if r.random() < 0.7 else None, origin=o)
         elif k < 0.3:
             n = Bin(sub(b // 2), sub(b - b // 2), origin=o)
         elif k < 0.38:
